@@ -198,6 +198,15 @@ func ReactScenarios() []History {
 		Ev{Name: "SetWithdrawAddr", Signer: "c1", Addr: "w1"}, // c1 owns no provider
 		Ev{Name: "Bind", Signer: "o2", Svc: "s1", Prov: "o1", Deposit: 40, DShape: "ok", Pr: pr(2), Qos: 1}, // o1's account is o2's provider
 		Ev{Name: "SetWithdrawAddr", Signer: "o2", Addr: "c2"},
+		// the provider account is not the owner of its binding: it can do nothing with it
+		Ev{Name: "Disable", Signer: "p2", Svc: "s1", Prov: "p2"},
+		Ev{Name: "UpdateBinding", Signer: "p2", Svc: "s1", Prov: "p2", Qos: 2},
+		Ev{Name: "UpdateBinding", Signer: "p2", Svc: "s1", Prov: "p2", Deposit: 5, DShape: "ok"},
+		Ev{Name: "Withdraw", Signer: "p2", Prov: "p2"},
+		Ev{Name: "Disable", Signer: "o1", Svc: "s1", Prov: "p2"},
+		Ev{Name: "Enable", Signer: "p2", Svc: "s1", Prov: "p2"},
+		Ev{Name: "RefundDeposit", Signer: "p2", Svc: "s1", Prov: "p2"},
+		Ev{Name: "Enable", Signer: "o1", Svc: "s1", Prov: "p2"},
 		Ev{Name: "Define", Signer: "o2", Svc: "s2"},
 		Ev{Name: "Bind", Signer: "p1", Svc: "s2", Prov: "p1", Deposit: 40, DShape: "ok", Pr: pr(2), Qos: 1}, // p1 is o1's provider: it cannot bind itself
 		Ev{Name: "Bind", Signer: "p3", Svc: "s2", Prov: "p3", Deposit: 40, DShape: "ok", Pr: pr(2), Qos: 1}, // p3 belongs to nobody yet: it can
